@@ -1155,13 +1155,13 @@ const CONSUMERS: &[(&str, &str, &str)] = &[
     ("iterate", "{% macro crm(cv) %}{% for cx in [1] recursive %}{{ cx }}{{ loop(cv) }}{% endfor %}{% endmacro %}[{{ crm(@) }}]", "[1]"),
     ("iterate", "{% macro crm(cv) %}{% for cx in cv recursive %}{{ loop(cx) }}{% endfor %}{% endmacro %}[{{ crm(@) }}]", "[]"),
     // `*args`
-    ("iterate", "[{{ dict(*@) }}]", "[{}]"),
+    ("iterate", "[{{ dict(*@)|length }}]", "[0]"),
     ("iterate", "[{{ l1|join(*@) }}]", "[123]"),
     ("iterate", "[{{ i1 is odd(*@) }}]", "[True]"),
-    ("iterate", "[{{ range(2, *@)|list }}]", "[[0, 1]]"),
-    ("iterate", "[{{ dict(*@, **{}) }}]", "[{}]"),
-    ("iterate", "[{{ range(*[2], *@)|list }}]", "[[0, 1]]"),
-    ("iterate", "[{{ range(*@, *[2])|list }}]", "[[0, 1]]"),
+    ("iterate", "[{{ range(2, *@)|join(',') }}]", "[0,1]"),
+    ("iterate", "[{{ dict(*@, **{})|length }}]", "[0]"),
+    ("iterate", "[{{ range(*[2], *@)|join(',') }}]", "[0,1]"),
+    ("iterate", "[{{ range(*@, *[2])|join(',') }}]", "[0,1]"),
     ("iterate", "{% macro csp(p=1, q=2) %}{{ p }}{{ q }}{% endmacro %}[{{ csp(*@) }}{{ csp(3, *@) }}{{ csp(*[3], *@, q=4) }}]", "[123234]"),
     // ---- truth-testing
     ("truth", "[{% if @ %}1{% endif %}]", "[]"),
